@@ -131,6 +131,56 @@ def load_known():
         return json.load(f)
 
 
+def run_battery(prop, mod, base_keys):
+    """apply every kept seeded change of this property (seeded/<prop>-mN/patch.diff, detected_by_check == yes) to a scratch copy
+    of /repo, re-extract, re-run the property's rules: the run must report a violation key that the unchanged tree does not"""
+    import glob, shutil, subprocess, tempfile
+    seeds = sorted(glob.glob(os.path.join(VERIF, "seeded", prop + "-*")))
+    out = {"mutants_run": 0, "reported": [], "missed": [], "skipped": []}
+    if not seeds:
+        return out
+    scratch_root = os.path.join(tempfile.gettempdir(), "verif-scratch")
+    scratch = os.path.join(scratch_root, "repo")
+    try:
+        for sd in seeds:
+            meta = json.load(open(os.path.join(sd, "meta.json")))
+            name = os.path.basename(sd)
+            if meta.get("detected_by_check") != "yes":
+                out["skipped"].append({"seed": name, "why": "recorded as not detectable by this check (see meta.json)"})
+                continue
+            shutil.rmtree(scratch, ignore_errors=True)
+            os.makedirs(scratch_root, exist_ok=True)
+            subprocess.run(["rsync", "-a", "--delete", "--exclude", "target", "--exclude", ".git", extract.REPO + "/", scratch + "/"], check=True)
+            r = subprocess.run(["patch", "-p1", "--fuzz=3", "-s", "-i", os.path.join(sd, "patch.diff")], cwd=scratch, stdout=subprocess.PIPE, stderr=subprocess.STDOUT, text=True)
+            if r.returncode != 0:
+                out["skipped"].append({"seed": name, "why": "patch no longer applies to the current tree: " + r.stdout.strip()[-160:]})
+                continue
+            try:
+                facts_dir, fhash, ext_s = extract.ensure_facts(scratch, verbose=False)
+            except SystemExit as e:
+                out["skipped"].append({"seed": name, "why": "mutant does not compile on the current tree: %s" % e})
+                continue
+            mprog = Program(facts_dir, crates=getattr(mod, "CRATES", None))
+            mctx = Ctx(mprog, prop, "quick")
+            mod.run(mctx)
+            new = sorted({v.key for v in mctx.violations} - set(base_keys))
+            out["mutants_run"] += 1
+            if new:
+                out["reported"].append({"seed": name, "new_violation_keys": new[:4]})
+                print("battery: %s reported (%s)" % (name, new[0]))
+            else:
+                out["missed"].append(name)
+                print("battery: %s NOT reported" % name)
+            shutil.rmtree(facts_dir, ignore_errors=True)
+    finally:
+        shutil.rmtree(scratch_root, ignore_errors=True)
+        # the scratch copy's cargo target dir
+        import hashlib as _h
+        tgt = os.path.join(extract.CACHE, "target-" + _h.sha256(scratch.encode()).hexdigest()[:8])
+        shutil.rmtree(tgt, ignore_errors=True)
+    return out
+
+
 def run_property(prop, module_name, argv):
     import argparse
     ap = argparse.ArgumentParser()
@@ -205,6 +255,13 @@ def run_property(prop, module_name, argv):
         print("  rule %s: %s\n    at %s\n    key %s" % (v.rule, v.msg, v.loc, v.key))
         print("VIOLATION property=%s replay=%s" % (prop, path))
         rc = 1
+    # ---- thorough tier: seeded-mutant battery (measures the checker, not the repo) -------------------------------
+    battery = None
+    if tier == "thorough" and not args.repo:
+        battery = run_battery(prop, mod, {v.key for v in ctx.violations})
+        if battery["missed"]:
+            print("CHECKER-BROKEN property=%s thorough: seeded mutant(s) not reported: %s" % (prop, battery["missed"]))
+            sys.exit(2)
     if args.replay:
         with open(args.replay) as f:
             want = json.load(f)["violation"]["key"]
@@ -252,6 +309,8 @@ def run_property(prop, module_name, argv):
             "fact_hash": fhash,
             "extract_seconds": round(ext_s, 1),
             "info": ctx.infos[:40],
+            "mutant_battery": battery,
+            "disagreements_checked": (battery or {}).get("mutants_run", 0),
         },
         "assumptions": ctx.assumptions + getattr(mod, "ASSUMPTIONS", []),
         "wall_s": round(wall, 2),
